@@ -34,6 +34,10 @@ def r03_1(ctx):
             ctx.fail("%s %s" % (name, what), detail="not a Runge-Kutta form", expected=exp, found=got, fi=f)
         if any(x is None for x in c):
             continue
+        # the order conditions are derived under the row-sum condition c_i = sum_j a_ij
+        for i in range(len(b)):
+            ctx.check(sum(A[i]) == c[i], "%s row-sum condition, stage %d" % (name, i + 1), detail="stage time inconsistent with the stage state (order conditions do not apply)",
+                      expected="c_%d = sum_j a_%dj = %s" % (i + 1, i + 1, sum(A[i])), found=str(c[i]), fi=f)
         for cname, lhs, rhs in AL.order_conditions(A, b, c, order):
             ctx.check(lhs == rhs, "%s order condition %s" % (name, cname), detail="order condition fails", expected=rhs, found=lhs, fi=f,
                       sample={"scheme": name, "condition": cname, "value": str(lhs)})
@@ -132,6 +136,11 @@ def r03_4(ctx):
         pk = n.key(kw["p"])
         same = "p" in stores and (pk == n.key(stores["p"]) or pk == "dae['p']")
         ok = ast.unparse(kw["x0"]) == "self.x" and same
+        # the algebraic guess offered in the signature must reach the integrator
+        _c, _ins, _outs, _ni, _no = AL.function_ctor(f)
+        zin = dict(zip(_ni, [ast.unparse(i) for i in _ins])).get("z_initial_guess")
+        ctx.check("z0" in kw and zin is not None and ast.unparse(kw["z0"]) == zin, "sys_simulator hands the algebraic guess to the integrator", detail="z_initial_guess accepted but ignored (another DAE branch may be simulated than discrete_system's)",
+                  expected="intg(..., z0=z_initial_guess)", found="z0=%s" % (ast.unparse(kw["z0"]) if "z0" in kw else None), fi=f, node=calls[0])
     ctx.check(ok, "sys_simulator call packs p as at definition", detail="p packing", expected="intg(x0=self.x, p=<the vector stored in dae['p']>, z0=...)", found="; ".join(ast.unparse(c) for c in calls), fi=f)
     call, ins, outs, ni, no = AL.function_ctor(f)
     pairs = dict(zip(ni, [ast.unparse(i) for i in ins]))
